@@ -21,8 +21,8 @@ h) reads scan published segments only: the scan list must not contain in-flight 
    .idx), so a read sees half-written rows that carry real event ids and win the de-duplication against the intact copy in the passive buffer. The passive buffer is released only after publication
    (C03.c), so the in-flight merge adds nothing to completeness.
 """
-FLOOR = 12
-REQUIRED = ["C11.a", "C11.b", "C11.c", "C11.f", "C11.g", "C11.h", "C11/C01.g", "C11/C03.c", "C11/C05.b1", "C11/C05.b2", "C11/C05.d", "C11/C05.e"]
+FLOOR = 13
+REQUIRED = ["C11.a", "C11.b", "C11.c", "C11.f", "C11.g", "C11.h", "C11.i", "C11/C01.g", "C11/C03.c", "C11/C05.b1", "C11/C05.b2", "C11/C05.d", "C11/C05.e"]
 
 SEGMOD = re.compile(r"^(engine::core::(column|filter|read::catalog|time|zone|snapshot|write)::|shared::storage_header::)")
 WRITER_ROOTS = {"engine::core::write::flusher::Flusher::flush", "engine::core::compaction::multi_uid_compactor::MultiUidCompactor::run",
@@ -200,6 +200,35 @@ def run(ctx):
         inst.sites.append(" -> ".join(norm_path(x).split("::")[-2] + "::" + norm_path(x).split("::")[-1] for x in chain[-4:]))
         return [("in-flight-segments-scanned", "reads merge in-flight (unpublished) segments into their scan list (%s): files still being written are read" % norm_path(chain[-2]).split("::")[-2:], chain)]
     ctx.run("C11.h", "K4 REACH", "engine::query::scan -> InflightSegments::snapshot", "a read scans published segments only", h_)
+
+    def i_(inst):
+        """When segments.idx is missing or unreadable the index is rebuilt from the directory listing. Publication exists only as a
+        line in that file, so a rebuilt index can only be right if a directory carries its own evidence of having been published
+        (a completion / retirement marker). Decided here: what recover_from_disk requires of a directory before it inserts a
+        SegmentEntry - the presence of a `.zones` file is the FIRST thing a flush writes and proves nothing."""
+        bad = []
+        b = F.fn("SegmentIndex::recover_from_disk")
+        fam = [b] + [F.fn_exact(k) for k in F.keys() if k.startswith(b.key.split("::{closure")[0] + "::{closure")]
+        ins = [(f_, c) for f_ in fam for c in f_.calls if not c.cleanup and re.search(r"SegmentIndexTree::insert$", c.nname)]
+        if not ins:
+            raise AnchorMissing("SegmentIndexTree::insert in recover_from_disk")
+        consts = set()
+        for f_ in fam:
+            for c in f_.calls:
+                if c.cleanup or not re.search(r"ends_with$|strip_suffix$|starts_with$|strip_prefix$|::eq$|Path::join$|Path::exists$|extension$", c.nname):
+                    continue
+                if c.nname.endswith("Path::join") and not any(x.nname.endswith(("Path::exists", "Path::is_file", "fs::metadata")) and (f_._origin_locals(x.args[0]) & {l for l, _ in f_.flow_forward(c.dest)}) for x in f_.calls if not x.cleanup):
+                    continue   # a path that is built but not probed (where the rebuilt index is saved) is no evidence
+                for a_ in c.args:
+                    if "k" in a_ and str(a_["k"]).startswith('"'):
+                        consts.add(a_["k"].strip('"'))
+        evidence = sorted(consts)
+        inst.sites += [sp(f_, c.bb) for f_, c in ins] + ["file-name evidence consulted before publishing a directory: %s" % evidence]
+        only_zones = set(evidence) <= {".zones"}
+        if only_zones:
+            bad.append(("recover-publishes-any-zones-dir", "recover_from_disk publishes every 5-digit directory that holds a *.zones file: a half-written flush directory and a retired, not yet deleted compaction input are published too", sp(ins[0][0], ins[0][1].bb)))
+        return bad
+    ctx.run("C11.i", "K10 READS", "SegmentIndex::recover_from_disk", "a rebuilt index publishes only directories that prove they were published", i_)
 
 
 def cmp_count(fam):
